@@ -90,13 +90,14 @@ let ll_cmd cmd line =
 
 (* ------------------------------------------------------------------ composed line (h_cs101): master x channel x slaves.
    The stations are the extracted step functions; the composition (who hears whom, loss/duplication by global
-   frame index, the bounded CS101 queues = fifo_enqueue, the ASDU-header length test of the CS101 layers) is here. *)
-type nslave = { mutable sst : station; mutable srx : z list; mutable sq1 : z list list; mutable sq2 : z list list }
+   frame index, the CS101 queues = the literal ring model cq_*, the ASDU-header length test of the CS101 layers) is here. *)
+(* the slave queues and the balanced master queue are the literal ring model of cs101_queue.c (Link/Cs101Queue.v) *)
+type nslave = { mutable sst : station; mutable srx : z list; mutable sq1 : cq; mutable sq2 : cq }
 let net_on = ref false
 let balanced = ref false
 let mst = ref NoSt
 let mrx = ref ([] : z list)
-let mq = ref ([] : z list list)
+let mq = ref (cq_init (zi 10))
 let nsl = ref ([||] : nslave array)
 let q1size = ref 10 and q2size = ref 10 and mqsize = ref 10
 let frame_no = ref 0
@@ -110,13 +111,13 @@ let net_cfg line =
   v := variant_of (kvstr l "fix" "");
   balanced := kvstr l "mode" "unb" = "bal";
   c := { alen = zi (kv l "al" 1); single_ack = kv l "sc" 0 <> 0; t_ack = zi (kv l "tack" 200); t_rep = zi (kv l "trep" 1000); t_ls = zi (kv l "tls" 5000) };
-  now := kv l "t" 1000; mrx := []; mq := []; frame_no := 0; Hashtbl.reset lose; Hashtbl.reset dupf;
-  q1size := kv l "q1" 10; q2size := kv l "q2" 10; mqsize := kv l "mq" 10;
+  now := kv l "t" 1000; mrx := []; frame_no := 0; Hashtbl.reset lose; Hashtbl.reset dupf;
+  q1size := kv l "q1" 10; q2size := kv l "q2" 10; mqsize := kv l "mq" 10; mq := cq_init (zi !mqsize);
   let n = if !balanced then 1 else min 3 (kv l "slaves" 1) in
   let idle = kv l "idle" 100000 in
   nsl := Array.init n (fun i ->
     { sst = (if !balanced then Bal (bal_init (zi (saddr i)) (zi 1) (zi idle) false true) else Su (su_init !v (zi (saddr i)) (zi idle)));
-      srx = []; sq1 = []; sq2 = [] });
+      srx = []; sq1 = cq_init (zi !q1size); sq2 = cq_init (zi !q2size) });
   mst := if !balanced then Bal (bal_init (zi 1) (zi (saddr 0)) (zi idle) true true)
          else Up (pu_init (List.init n (fun i -> zi (saddr i))))
 
@@ -136,8 +137,11 @@ let net_step who =
   if who < 0 then begin
     let outs = (match !mst with
       | Bal b ->
-          let b0 = bal_with b b.b_p b.b_s !mq in
-          let ((b', rest), o) = bal_run !v !c (zi !now) b0 !mrx in mst := Bal b'; mrx := rest; mq := b'.b_q; o
+          let b0 = bal_with b b.b_p b.b_s (cq_abs !mq) in
+          let n0 = List.length b0.b_q in
+          let ((b', rest), o) = bal_run !v !c (zi !now) b0 !mrx in mst := Bal b'; mrx := rest;
+          if List.length b'.b_q < n0 then mq := snd (cq_dequeue !mq);
+          o
       | Up p -> let ((p', rest), o) = pu_run !v !c (zi !now) p !mrx in mst := Up p'; mrx := rest; o
       | _ -> []) in
     let txs = ref [] in
@@ -156,16 +160,21 @@ let net_step who =
     let s = !nsl.(who) in
     let outs = (match s.sst with
       | Bal b ->
-          let b0 = bal_with b b.b_p b.b_s (s.sq1 @ s.sq2) in
+          let b0 = bal_with b b.b_p b.b_s (cq_abs s.sq1 @ cq_abs s.sq2) in
           let n0 = List.length b0.b_q in
           let ((b', rest), o) = bal_run !v !c (zi !now) b0 s.srx in
           s.sst <- Bal b'; s.srx <- rest;
-          if List.length b'.b_q < n0 then (match s.sq1 with _ :: t -> s.sq1 <- t | [] -> (match s.sq2 with _ :: t -> s.sq2 <- t | [] -> ()));
+          if List.length b'.b_q < n0 then
+            (if not (cq_is_empty s.sq1) then s.sq1 <- snd (cq_dequeue s.sq1) else s.sq2 <- snd (cq_dequeue s.sq2));
           o
       | Su u ->
-          let u0 = su_with_q u s.sq1 s.sq2 in
+          let u0 = su_with_q u (cq_abs s.sq1) (cq_abs s.sq2) in
+          let (n1, n2) = (List.length u0.su_q1, List.length u0.su_q2) in
           let ((u', rest), o) = su_run !v !c (zi !now) u0 s.srx in
-          s.sst <- Su u'; s.srx <- rest; s.sq1 <- u'.su_q1; s.sq2 <- u'.su_q2; o
+          s.sst <- Su u'; s.srx <- rest;
+          if List.length u'.su_q1 < n1 then s.sq1 <- snd (cq_dequeue s.sq1);
+          if List.length u'.su_q2 < n2 then s.sq2 <- snd (cq_dequeue s.sq2);
+          o
       | _ -> []) in
     let txs = ref [] in
     List.iter (fun o -> match o with
@@ -194,17 +203,16 @@ let net_cmd cmd line =
          if List.length d < asdu_hdr then print_endline "? bad asdu" else begin
            let s = !nsl.(who) in
            let c1 = cmd = "enq1" in
-           let size = if c1 then !q1size else !q2size in
            let cur = if c1 then s.sq1 else s.sq2 in
-           Printf.printf "enq s%d c=%d full=%d\n" (who + 1) (if c1 then 1 else 2) (b2i (List.length cur = size));
-           let nq = fifo_enqueue (zi size) cur d in
+           Printf.printf "enq s%d c=%d full=%d\n" (who + 1) (if c1 then 1 else 2) (b2i (cq_is_full cur));
+           let nq = cq_enqueue cur d in
            if c1 then s.sq1 <- nq else s.sq2 <- nq
          end
      | "msend" when who >= 0 ->
          let d = hex () in
          if List.length d < asdu_hdr then print_endline "? bad asdu" else begin
            (match !mst with
-            | Bal _ -> mq := fifo_enqueue (zi !mqsize) !mq d; Printf.printf "msend s%d ok=1\n" (who + 1)
+            | Bal _ -> mq := cq_enqueue !mq d; Printf.printf "msend s%d ok=1\n" (who + 1)
             | Up p ->
                 let a = zi (saddr who) in
                 let ready = List.exists (fun s -> s.sc_addr = a && not (s.sc_r1 || s.sc_r2 || s.sc_has)) p.pu_slaves in
